@@ -14,7 +14,7 @@ from sim.net import Link
 
 PROPERTY = "C10"
 LEVEL = "exploration"
-BUDGET = {"quick": {"runs": 1200, "wall": 55}, "thorough": {"runs": 40000, "wall": 570}}
+BUDGET = {"quick": {"runs": 900, "wall": 55}, "thorough": {"runs": 40000, "wall": 570}}
 T_CALL = 5.0
 RULE = ("Each run: per-side REKEY_BYTES in 2^14..2^18 and REKEY_PACKETS in 2^6..2^10, overflow allowance >= 2^18 "
         "bytes / 2^10 packets, channel window 32-64 KiB; traffic shape, volumes, latency and schedule from the seed; "
@@ -81,7 +81,7 @@ def scenario(sim):
     ledger_ok = True
     nphase = 2 + sim.choose(3)
     for ph in range(nphase):
-        shape = ("send-heavy", "receive-heavy", "ping-pong", "idle-after-crossing")[sim.choose(4)]
+        shape = ("send-heavy", "receive-heavy", "ping-pong", "idle-after-crossing", "tiny-packets")[sim.choose(5)]
         vol = (20000, 70000, 150000, 300000)[sim.choose(4)]
         shapes.append((shape, vol))
         try:
@@ -89,6 +89,9 @@ def scenario(sim):
                 ledger_ok &= transfer(sim, ch, sch, vol)
             elif shape == "receive-heavy":
                 ledger_ok &= transfer(sim, sch, ch, vol)
+            elif shape == "tiny-packets":
+                for _ in range(80 + vol // 1000):
+                    ledger_ok &= ssh.echo_round(sim, ch, sch, 1, 1)
             else:
                 for _ in range(vol // 8000):
                     ledger_ok &= ssh.echo_round(sim, ch, sch, 4000, 4000)
